@@ -3,6 +3,7 @@ import HickoryVerif.Model.AuthZone
 import HickoryVerif.Model.AuthZoneDev
 import HickoryVerif.Model.AuthZoneSigned
 import HickoryVerif.Model.AuthZoneSignedDev
+import HickoryVerif.Model.AuthZoneFull
 
 /-!
 Case line (see `harness/src/props/c10.rs`):  `q <mode> <origin> <zone> <qname> <qtype> <do>`
@@ -17,7 +18,7 @@ def init : State := ()
 def tyTable : List (String × Nat) :=
   [("A", T_A), ("NS", T_NS), ("CNAME", T_CNAME), ("SOA", T_SOA), ("MX", T_MX), ("TXT", T_TXT),
    ("AAAA", T_AAAA), ("DS", T_DS), ("ANY", T_ANY), ("RRSIG", T_RRSIG), ("NSEC", T_NSEC),
-   ("DNSKEY", T_DNSKEY)]
+   ("DNSKEY", T_DNSKEY), ("SRV", T_SRV), ("ANAME", T_ANAME), ("AXFR", T_AXFR)]
 
 def parseTy (s : String) : Option Nat := (tyTable.find? (·.1 == s)).map (·.2)
 
@@ -93,7 +94,20 @@ def showRRsetS (dnssecOk : Bool) (r : RRset) : String :=
     showRRset r ++ ";" ++ showLName r.name ++ "/RRSIG/" ++ showTy r.type ++ "." ++ toString l
   | _, _ => showRRset r
 
+/-- the summary groups consecutive records of one owner and type (that is all the wire shows):
+adjacent RRsets with the same owner and type print as one, unless an RRSIG is emitted between -/
+def mergeAdjacent (dnssecOk : Bool) : List RRset → List RRset
+  | a :: b :: rest =>
+    if a.name == b.name && a.type == b.type && !(dnssecOk && a.sigLabels.isSome) then
+      mergeAdjacent dnssecOk ({ b with rdatas := a.rdatas ++ b.rdatas } :: rest)
+    else a :: mergeAdjacent dnssecOk (b :: rest)
+  | l => l
+termination_by l => l.length
+
+/-- an RRset without records (the ANAME arm can synthesise one) puts nothing on the wire — not
+even its on-the-fly RRSIG, `RRSIG::from_rrset` fails on an empty set -/
 def showSectionS (dnssecOk : Bool) (l : List RRset) : String :=
+  let l := mergeAdjacent dnssecOk (l.filter (!·.rdatas.isEmpty))
   if l.isEmpty then "-" else ";".intercalate (l.map (showRRsetS dnssecOk))
 
 def showSection (l : List RRset) : String := showSectionS false l
@@ -168,19 +182,30 @@ def handle (toks : List String) : Option String :=
     pure ("wf=" ++ showBool (zoneWF z o) ++ " classes=" ++ (if cs.isEmpty then "-" else ",".intercalate cs) ++
       " conf=" ++ showBool (conformsModAA (answerImpl z o q) (answerSpec MAX_CNAME_DEPTH z o q)) ++
       " aa=" ++ showBool ((answerImpl z o q).aa == (answerSpec MAX_CNAME_DEPTH z o q).aa))
-  | ["q", "n", origin, _zone, qname, qtype, dok, store] => do
+  | ["q", mode, origin, zone, qname, qtype, dok, store] => do
+    -- signed zones: `n` NSEC chain, `s` signed without a denial chain; the model runs on the store
+    let nsec ← (if mode == "n" then some true else if mode == "s" then some false else none)
+    let _ := zone
     let origin ← parseLName origin
     let z ← parseZone store
     let qn ← parseLName qname
     let qt ← parseTy qtype
     let dok := dok == "1"
-    pure (showResponseS dok (respondS z origin { name := lowerName qn, type := qt } dok true))
+    let q : Query := { name := lowerName qn, type := qt }
+    if zoneHasAname z || qt == T_AXFR then
+      pure (showResponseS dok (respondFull z origin q dok true nsec))
+    else
+      pure (showResponseS dok (respondS z origin q dok nsec))
   | ["q", "u", origin, zone, qname, qtype, _do] => do
     let origin ← parseLName origin
     let z ← parseZone zone
     let qn ← parseLName qname
     let qt ← parseTy qtype
-    pure (showResponse (respond z origin { name := lowerName qn, type := qt }))
+    let q : Query := { name := lowerName qn, type := qt }
+    if zoneHasAname z || qt == T_AXFR then
+      pure (showResponseS false (respondFull z origin q false false false))
+    else
+      pure (showResponse (respond z origin q))
   | _ => none
 
 def step (s : State) (toks : List String) : State × String :=
